@@ -75,6 +75,9 @@ def convert_eems2_commands(command_nodes):
     converted = []
 
     for node in command_nodes:
+        # MPilot-style commands in the same file keep all their arguments
+        is_eems2 = node.result_name is None or node.command in EEMS_COMMANDS
+
         try:
             converted.append(
                 CommandNode(
@@ -85,7 +88,7 @@ def convert_eems2_commands(command_nodes):
                     [
                         arg
                         for arg in node.arguments
-                        if arg.name not in ("NewFieldName", "OutFileName")
+                        if not is_eems2 or arg.name not in ("NewFieldName", "OutFileName")
                     ],
                     node.lineno,
                 )
